@@ -345,6 +345,94 @@ theorem no_access_after_free (w : World) (h : w.freed = true) (ops : List Op) :
   · intro op v hv hio
     exact step_dead _ op v hv (by simp [dead, run_freed ops w h]) hio
 
+/-! ## With-blocks, and calls made while TruncationWarning is an error -/
+
+/-- **Leaving a with-block closes the view, however the block was left** (normally or through an
+exception; as `io.BytesIO` and real files do): `__exit__` is `close()`. -/
+theorem exit_block_is_close (w : World) (i : Nat) (raised : Bool) :
+    step w (.exitBlock i raised) = step w (.close i) := by
+  unfold step
+  simp only [Op.target]
+  split <;> rfl
+
+/-- ... so after a with-block on a live view - left normally or by an exception - the view is dead
+for the rest of any history: every read / write / seek / tell / flush / address / slicing on it
+raises OSError, changes nothing and issues no controller access. -/
+theorem dead_after_block (w : World) (i : Nat) (v : View) (raised : Bool) (hv : w.views[i]? = some v)
+    (hf : w.freed = false) (ops : List Op) (op : Op) (hio : op.mustFail = true) (ht : op.target = i) :
+    step (run (step w (.exitBlock i raised)).1 ops).2 op =
+      ((run (step w (.exitBlock i raised)).1 ops).2, ⟨.err .osError, false, none⟩) := by
+  rw [exit_block_is_close]
+  exact dead_after_close _ i (close_closes w i v hv hf) ops op hio ht
+
+/-- entering a block does nothing (and is not guarded by the code) -/
+theorem enter_is_noop (w : World) (i : Nat) (v : View) (hv : w.views[i]? = some v) :
+    step w (.enter i) = (w, ⟨.view i, false, none⟩) := by
+  unfold step
+  simp [Op.target, hv, stepView, done]
+
+theorem strictFails_eq_warn (w : World) (op : Op) (v : View) (hv : w.views[op.target]? = some v) :
+    strictFails w v op = (step w op).2.warn := by
+  unfold step
+  rw [hv]
+  cases hd : dead w v <;> cases op <;>
+    simp [strictFails, stepView, doRead, doWrite, doReadFail, doWriteFail, doSeek, doSlice, doSliceOrig,
+      doClose, doFree, doFreeFail, fail, done, hd] <;> (repeat' split) <;> simp_all
+
+/-- a call under "warnings are errors" is the ordinary call, or - exactly when the ordinary call
+would issue a TruncationWarning - raises it and leaves the world untouched -/
+theorem stepS_cases (w : World) (op : Op) (strict : Bool) :
+    (stepS w op strict = step w op ∧ (strict = false ∨ (step w op).2.warn = false)) ∨
+    (stepS w op strict = (w, ⟨.err .truncation, true, none⟩) ∧ strict = true ∧ (step w op).2.warn = true) := by
+  unfold stepS
+  split
+  · left; refine ⟨rfl, ?_⟩
+    cases strict
+    · exact Or.inl rfl
+    · right; unfold step; simp [*]
+  · rename_i v hv
+    have := strictFails_eq_warn w op v hv
+    cases strict <;> cases hw : strictFails w v op <;> simp_all
+
+/-- **Bounded file under "warnings are errors".** With `TruncationWarning` turned into an exception,
+every file operation on a live view refines `strictSpec` of the file specification: a call that
+would be truncated raises, transfers nothing and moves nothing; every other call is as in
+`step_refines_file`. -/
+theorem strict_refines_file (w : World) (op : Op) (v : View) (hv : w.views[op.target]? = some v)
+    (hlive : dead w v = false) (hwf : v.start ≤ v.stop) (hio : op.isIO = true)
+    (hk : ∀ i n, op = .seek i n 2 → n = 0) :
+    ∃ s, specIO v (absFile w.mem v) op = some s ∧
+      Refines w op.target v (strictSpec v (absFile w.mem v) s) (stepS w op true) := by
+  obtain ⟨s, hs, hR⟩ := step_refines_file w op v hv hlive hwf hio hk
+  refine ⟨s, hs, ?_⟩
+  have hwarn : (step w op).2.warn = s.warn := by rw [hR.1]
+  rcases stepS_cases w op true with ⟨h1, h2⟩ | ⟨h1, _, h3⟩
+  · rcases h2 with h2 | h2
+    · cases h2
+    · have : s.warn = false := by rw [← hwarn]; exact h2
+      rw [h1]; simp only [strictSpec, this]; exact hR
+  · have : s.warn = true := by rw [← hwarn]; exact h3
+    rw [h1]
+    simp only [strictSpec, this, if_true]
+    exact ⟨by simp [specAccess, this], (set_self _ _ _ hv).symm, rfl, fun _ _ => rfl, rfl, rfl, rfl⟩
+
+/-- the invariants carry over to histories under "warnings are errors": the world stays well-formed
+and every access stays confined (a strict call is the ordinary call or touches nothing) -/
+theorem stepS_WF (lo hi : Int) (w : World) (op : Op) (strict : Bool) (h : WF lo hi w) :
+    WF lo hi (stepS w op strict).1 := by
+  rcases stepS_cases w op strict with ⟨h1, _⟩ | ⟨h1, _⟩
+  · rw [h1]; exact step_WF lo hi w op h
+  · rw [h1]; exact h
+
+theorem stepS_confined (w : World) (op : Op) (strict : Bool) (a : Access)
+    (h : (stepS w op strict).2.access = some a) :
+    ∃ v, w.views[op.target]? = some v ∧ Confined w.x w.y v a := by
+  rcases stepS_cases w op strict with ⟨h1, _⟩ | ⟨h1, _⟩
+  · rw [h1] at h
+    obtain ⟨v, hv, hc, _⟩ := step_confined w op a h
+    exact ⟨v, hv, hc⟩
+  · rw [h1] at h; cases h
+
 /-! ## The code before the fix, the fix, and the known finding -/
 
 /-- the code before the fix: `seek(-4); read(2)` on a 10-byte view at 1000 reads 2 bytes at 996 -/
@@ -451,6 +539,18 @@ example : step (step (mkRoot 1 2 1000 1010 (fun _ => 7)) (.close 0)).1 (.slice 0
   dead_after_close (step (mkRoot 1 2 1000 1010 (fun _ => 7)) (.close 0)).1 0
     (close_closes (mkRoot 1 2 1000 1010 (fun _ => 7)) 0 (mkView 1000 1010) rfl rfl) []
     (.slice 0 (some 1) none none) rfl rfl
+
+/-- a with-block left by an exception closes the view; the next read fails -/
+example : let w := mkRoot 1 2 1000 1010 (fun _ => 7)
+    (run w [.enter 0, .read 0 2, .exitBlock 0 true, .read 0 2, .slice 0 none none none]).1 =
+      [⟨.view 0, false, none⟩, ⟨.bytes [7, 7], false, some (.read 1000 2 1 2 0)⟩, ⟨.none, false, none⟩,
+       ⟨.err .osError, false, none⟩, ⟨.err .osError, false, none⟩] := by decide
+
+/-- warnings as errors: the truncated read raises and moves nothing, the in-range read is ordinary -/
+example : let w := (step (mkRoot 1 2 1000 1010 (fun _ => 7)) (.seek 0 8 0)).1
+    (runS w [(.read 0 4, true), (.tell 0, true), (.read 0 2, true)]).1 =
+      [⟨.err .truncation, true, none⟩, ⟨.int 8, false, none⟩,
+       ⟨.bytes [7, 7], false, some (.read 1008 2 1 2 0)⟩] := by decide
 
 /-- `WF` holds of a world with slices (`step_WF`, `run_confined`) -/
 example : WF 1000 1010 (run (mkRoot 1 2 1000 1010 (fun _ => 7))
